@@ -386,7 +386,12 @@ impl LogChange {
 		write(&BEGIN_RECORD.to_le_bytes())?;
 		write(&self.record_id.to_le_bytes())?;
 
-		for (id, overlay) in self.local_index.iter() {
+		// Older tables first. A table file is created by the first action enacted into it, and
+		// replay takes a table that is older than the current one and has no file for a dropped
+		// one: the files of one record must not come into existence newest first.
+		let mut local_index: Vec<_> = self.local_index.iter().collect();
+		local_index.sort_by_key(|(id, _)| id.as_u16());
+		for (id, overlay) in local_index {
 			for (index, (_, modified_entries_mask, chunk)) in overlay.map.iter() {
 				write(INSERT_INDEX.to_le_bytes().as_ref())?;
 				write(&id.as_u16().to_le_bytes())?;
@@ -408,7 +413,9 @@ impl LogChange {
 				write(value)?;
 			}
 		}
-		for (id, overlay) in self.local_ref_count.iter() {
+		let mut local_ref_count: Vec<_> = self.local_ref_count.iter().collect();
+		local_ref_count.sort_by_key(|(id, _)| id.as_u16());
+		for (id, overlay) in local_ref_count {
 			for (index, (_, modified_entries_mask, chunk)) in overlay.map.iter() {
 				write(INSERT_REF_COUNT.to_le_bytes().as_ref())?;
 				write(&id.as_u16().to_le_bytes())?;
